@@ -683,7 +683,7 @@ def _forced_conflict(draw, base):
     n = len(base["cells"])
     shape = draw(st.sampled_from(["del_vs_edit", "edit_vs_del", "both_edit_source", "both_edit_outputs", "both_edit_meta",
                                   "both_insert_same_pos", "both_insert_similar", "both_insert_runs", "both_insert_runs", "insert_next_to_edit", "insert_next_to_del",
-                                  "both_append_nonl", "both_attach", "both_attach_leftover", "same_insert_next_line_edit", "same_insert_next_line_edit", "both_add_outputs_shared", "both_add_outputs_shared", "attach_del_vs_edit", "out_insert_vs_change", "out_insert_vs_change", "same_output_line_small_edits", "same_output_line_small_edits", "both_nbmeta", "both_minor", "both_del", "both_ec", "both_change_id",
+                                  "both_append_nonl", "both_attach", "both_attach_leftover", "same_insert_next_line_edit", "same_insert_next_line_edit", "both_add_outputs_shared", "both_add_outputs_shared", "attach_del_vs_edit", "out_insert_vs_change", "out_insert_vs_change", "same_output_line_small_edits", "same_output_line_small_edits", "both_replace_sub", "both_replace_sub", "both_replace_sub", "both_nbmeta", "both_minor", "both_del", "both_ec", "both_change_id",
                                   "both_same_edit", "both_edit_same_output", "both_edit_same_output", "transient_meta", "type_vs_edit", "type_vs_edit", "type_vs_edit", "both_rerun", "both_rerun", "both_rerun", "both_rerun", "two_outputs", "two_outputs", "both_insert_block"]))
     usedl, usedr = _ids(l), _ids(r)
     if shape == "both_insert_runs":
@@ -879,6 +879,40 @@ def _forced_conflict(draw, base):
                 cc["outputs"][0]["text"] = cc["outputs"][0]["text"].replace(old, newv)
             else:
                 cc["outputs"][0]["data"]["text/plain"] = cc["outputs"][0]["data"]["text/plain"].replace(old, newv)
+    elif shape == "both_replace_sub":
+        # both sides replace the same item (cell / output / source line) and what one side puts there is a sub-sequence of what the other
+        # puts there: the same rewrite picked into both branches, one branch adding a follow-up item
+        level = draw(st.sampled_from(["cell", "cell", "output", "line"]))
+        if level == "output" and not (c["cell_type"] == "code" and c["outputs"]):
+            level = "cell"
+        more_side = draw(st.sampled_from(["l", "r"]))
+        extra_first = draw(st.sampled_from([False, False, True]))
+        if level == "cell":
+            X = draw(cell(minor, _fresh_id(usedl | usedr, "X") if minor >= 5 else None))
+            Y = draw(cell(minor, _fresh_id(usedl | usedr | {X.get("id")}, "Y") if minor >= 5 else None))
+            for side, tag in ((l, "l"), (r, "r")):
+                new = [copy.deepcopy(X)]
+                if tag == more_side:
+                    new = [copy.deepcopy(Y)] + new if extra_first else new + [copy.deepcopy(Y)]
+                side["cells"][i:i + 1] = new
+        elif level == "output":
+            k = draw(st.integers(0, len(c["outputs"]) - 1))
+            O1, O2 = draw(output()), draw(output())
+            for side, tag in ((l, "l"), (r, "r")):
+                new = [copy.deepcopy(O1)]
+                if tag == more_side:
+                    new = [copy.deepcopy(O2)] + new if extra_first else new + [copy.deepcopy(O2)]
+                side["cells"][i]["outputs"][k:k + 1] = new
+        else:
+            lines = c["source"].splitlines(True) or ["pass\n"]
+            if not lines[-1].endswith("\n"):
+                lines[-1] += "\n"
+            k = draw(st.integers(0, len(lines) - 1))
+            for side, tag in ((l, "l"), (r, "r")):
+                new = ["rewritten = compute(everything)\n"]
+                if tag == more_side:
+                    new = ["# follow-up\n"] + new if extra_first else new + ["follow_up(rewritten)\n"]
+                side["cells"][i]["source"] = "".join(lines[:k] + new + lines[k + 1:])
     elif shape == "both_insert_block":
         # both sides insert a block of lines at the same line of the same source; the blocks share (repeated) lines
         # around a differing middle, e.g. blank line / statement / blank line
